@@ -43,7 +43,7 @@ class SourceSet:
         for dirpath, dirnames, filenames in os.walk(base):
             dirnames[:] = [d for d in dirnames if d != "__pycache__"]
             for fn in sorted(filenames):
-                if fn.endswith((".py", ".lark")):
+                if fn.endswith((".py", ".lark", ".csv")):
                     p = os.path.join(dirpath, fn)
                     rel = os.path.relpath(p, root)
                     with open(p, encoding="utf-8") as f:
